@@ -49,6 +49,7 @@ impl VectorCache {
         if let std::collections::hash_map::Entry::Occupied(mut entry) = state.cache.entry(doc_id) {
             entry.insert(cached_vector);
             let _ = state.lru.touch(doc_id);
+            proof { assert(state.cache@.dom() =~= old(self).state.cache@.dom()); }
             return None;
         }
 
